@@ -11,6 +11,7 @@ CONSTANTS V, C, E, R,       \* validators, cores, epoch length, rotation period
           Jumps,            \* slot increments
           Tickets,          \* ticket counts
           MaxG, MaxA,       \* guarantees / assurances per block
+          Authors,          \* author indices
           PreOpts,          \* preimage extrinsics
           AvAc              \* pairs <<newly available reports, accumulation statistics>>
 
@@ -50,12 +51,14 @@ Block(blk) ==
   /\ piS' = (LET ss == SetToSortSeq(Services(blk), <) IN [k \in 1..Len(ss) |-> ServiceRec(blk, ss[k])])
   /\ ep' = IF newep THEN <<blk>> ELSE Append(ep, blk)
 
-Next == nblk < MaxBlocks /\ \E dt \in Jumps, author \in 0..(V - 1), nt \in Tickets, pre \in PreOpts, as \in AOpts, aa \in AvAc :
+Next == nblk < MaxBlocks /\ \E dt \in Jumps :
           LET slot == tau + dt
-              k2 == IF slot \div E # tau \div E THEN kidx + 1 ELSE kidx IN
-          \E gs \in GOpts(slot) :
+              k2 == IF slot \div E # tau \div E THEN kidx + 1 ELSE kidx
+              kap == KeySet(k2)
+              lam == KeySet(k2 - 1) IN
+          \E gs \in GOpts(slot), as \in AOpts, pre \in PreOpts, aa \in AvAc, author \in Authors, nt \in Tickets :
              Block([slot |-> slot, author |-> author, nt |-> nt, pre |-> pre, gs |-> gs, as |-> as, avail |-> aa[1], acc |-> aa[2],
-                    kappa |-> KeySet(k2), lambda |-> KeySet(k2 - 1)])
+                    kappa |-> kap, lambda |-> lam])
 Spec == Init /\ [][Next]_vars
 View == <<tau, piV, piL, kidx, nblk>>     \* core and service records do not influence the future
 
